@@ -35,9 +35,9 @@ var c12Flags = [][]string{{}, {"LnoInterrupt"}, {"Linterruptalways"}, {"LnoInter
 const c12Cells = 14 * 4 * 2 * 2 * 3
 
 func (*C12) Plan(tier string) orch.Plan {
-	seeds := 1
+	seeds := 4
 	if tier == "thorough" {
-		seeds = 40
+		seeds = 300
 	}
 	return orch.Plan{Episodes: c12Cells * seeds, Batch: 1, Exhaustive: true,
 		Assumptions: []string{"exhaustive: true refers to the cells of the termination matrix; message, attributes and the surrounding calls are sampled per seed"}}
